@@ -466,7 +466,11 @@ pub fn gen(r: &mut Rng, out: &mut Out, thorough: bool, id: &mut u64) {
                 _ => gen_cert(&mut cr, out),
             };
             out.stat(&format!("kind_{}", kind), 1);
-            out.stat(&format!("unproved_codec_{}", kind), 1);
+            // D16c: the certificate conversion is modelled and proved now (kind `der`, `c17_der.rs`); this stream of
+            // copied vectors stays as an additional implementation-side exercise
+            if kind != "cert" {
+                out.stat(&format!("unproved_codec_{}", kind), 1);
+            }
             super::emit_case(out, *id, kind, ops);
             *id += 1;
         }
